@@ -13,6 +13,8 @@ Re-extracts on every run
   * the one-shot `shake128` / `shake256`: the statement sequence must match the template ONESHOT, whose holes are the rate macros, the
     block count of the tail call and the copy loop (translated by sponge.py's statement translator); `shake*_ctx_release` must be
     `free(state->ctx);`.  Emitted as `shakeN.run` in the Option monad over the generated wrapper programs.
+  * the exported `SHAKE128` / `SHAKE256`: exactly `shakeN(a, b, c, d); return 0;`, arguments bound positionally.
+  * `shake128/256[_inc]_ctx_clone` (malloc + memcpy of 25 / 26 lanes) and `_ctx_release` (`free(state->ctx);`, shape-checked).
 Anything else raises TranslateError.
 """
 import os, re, sys
@@ -199,6 +201,55 @@ def oneshot(src, mac, b):
     return L
 
 
+def upper(src, b):
+    """the exported `SHAKE128` / `SHAKE256`: body must be `shakeN(a, b, c, d); return 0;`; the actual arguments are bound
+    positionally (kind-checked) to the one-shot's parameters"""
+    name, callee = "SHAKE" + b, "shake" + b
+    args, body = find_function(src, name)
+    m = re.match(r"\s*unsigned\s+char\s*\*\s*(\w+)\s*,\s*size_t\s+(\w+)\s*,\s*const\s+unsigned\s+char\s*\*\s*(\w+)\s*,\s*size_t\s+(\w+)\s*$", args)
+    if not m or len(set(m.groups())) != 4:
+        raise TranslateError("%s: unexpected parameter list %r" % (name, args))
+    o, ol, i, il = m.groups()
+    t = sponge.tokenize(body, name)
+    if len(t) != 14 or t[0] != callee or t[1] != "(" or [t[3], t[5], t[7]] != [","] * 3 or t[9:] != [")", ";", "return", "0", ";"]:
+        raise TranslateError("%s: body is not `%s(a, b, c, d); return 0;`" % (name, callee))
+    a = [t[2], t[4], t[6], t[8]]
+    kinds = {o: "out", ol: "nat", i: "bytes", il: "nat"}
+    if [kinds.get(x) for x in a] != ["out", "nat", "bytes", "nat"]:
+        raise TranslateError("%s: arguments %r do not fit %s(uint8_t *, size_t, const uint8_t *, size_t)" % (name, a, callee))
+    return ["/-- the exported `%s`: the single call `%s(%s)`, returns 0 -/" % (name, callee, ", ".join(a)),
+            "def %s.run (F : State → State) (fuel : Nat) (%s : List UInt8) (%soff %s : Nat) (%s : List UInt8) (%s : Nat)" % (name, o, o, ol, i, il),
+            "    (s0 : State) (t0 : List UInt8) (ia : Nat) (ta : List UInt8) (iq1 iq2 ic : Nat) : Option (List UInt8) :=",
+            "  %s.run F fuel %s %soff %s %s %s s0 t0 ia ta iq1 iq2 ic" % (callee, a[0], a[0], a[1], a[2], a[3]), ""]
+
+
+CLONE = ("dest - > ctx = malloc ( %s ) ; if ( dest - > ctx == NULL ) { exit ( 111 ) ; } "
+         "memcpy ( dest - > ctx , src - > ctx , %s ) ;")
+
+
+def clone_release(src, fam, inc):
+    """`shakeN[_inc]_ctx_clone`: malloc(M); NULL check; memcpy(dest->ctx, src->ctx, M) with M = 25 / 26 lanes (both occurrences resolved
+    from the C text) -> `memcpyCtx lanes`;  `shakeN[_inc]_ctx_release`: exactly `free(state->ctx);` (no observable effect on the model:
+    shape-checked only)"""
+    base = "shake%s%s_ctx_" % (fam, "_inc" if inc else "")
+    ty = "shake%s%sctx" % (fam, "inc" if inc else "")
+    args, body = find_function(src, base + "clone")
+    if not re.match(r"\s*%s\s*\*\s*dest\s*,\s*const\s+%s\s*\*\s*src\s*$" % (ty, ty), args):
+        raise TranslateError("%sclone: unexpected parameter list %r" % (base, args))
+    t = " ".join(sponge.tokenize(body, base + "clone"))
+    lanes = None
+    for mname, n in LANES.items():
+        if t == CLONE % (mname, mname) and re.search(r"#define\s+%s\s+\(sizeof\(uint64_t\)\s*\*\s*%d\)" % (mname, n), src):
+            lanes = n
+    if lanes is None:
+        raise TranslateError("%sclone: not malloc(M); NULL check; memcpy(dest->ctx, src->ctx, M)" % base)
+    args, body = find_function(src, base + "release")
+    if not re.match(r"\s*%s\s*\*\s*state\s*$" % ty, args) or sponge.tokenize(body, base) != "free ( state - > ctx ) ;".split():
+        raise TranslateError("%srelease is not free(state->ctx)" % base)
+    return ["/-- `%sclone`: fresh allocation `dest0` (arbitrary), then memcpy of %d lanes from `src->ctx` -/" % (base, lanes),
+            "def %sclone.run (src : State × Nat) (dest0 : State × Nat) : State × Nat := memcpyCtx %d dest0 src" % (base, lanes), ""]
+
+
 def emit(repo):
     src = strip_c_comments(open(os.path.join(repo, "src/common/generic/fips202.c")).read())
     mac = macros(src)
@@ -221,6 +272,14 @@ def emit(repo):
         L += wrapper(src, mac, callees, *w)
     for b in ("128", "256"):
         L += oneshot(src, mac, b)
+    for b in ("128", "256"):
+        L += upper(src, b)
+    L += ["/-- `memcpy(dst, src, 8 * nl)` on a context = 25 lanes + (for the incremental API) the counter `s_inc[25]` as 26th lane -/",
+          "def memcpyCtx (nl : Nat) (dst src : State × Nat) : State × Nat :=",
+          "  (Vector.ofFn fun i => if i.val < nl then src.1[i] else dst.1[i], if 25 < nl then src.2 else dst.2)", ""]
+    for b in ("128", "256"):
+        for inc in (False, True):
+            L += clone_release(src, b, inc)
     L += ["end SqiGen.Sponge", ""]
     return "\n".join(L)
 
